@@ -10,10 +10,29 @@ classdef("Features", rec=True,
          fields={"front_number": "Opt[Int]", "domination_counter": "Int", "dominate": "List[Int]",
                  "feasible": "Real", "precision": "Int", "start_time": "Real", "finish_time": "Real",
                  "velocity": "List[Real]", "best_cost": "List[Real]", "best_vector": "List[Real]",
-                 "sensitivity": "Real"})
+                 "sensitivity": "Real", "crowding_distance": "ExtReal"})
 
 classdef("Dominance", fields={})
 classdef("ParetoDominance", bases=["Dominance"], fields={})
 classdef("EpsilonDominance", bases=["Dominance"], fields={"epsilons": "List[Real]"})
 
 classdef("Archive", fields={"_dominance": "Ref[Dominance]", "_contents": "List[Ref[Individual]]"})
+
+classdef("Parameter", rec=True, optional=["bounds", "precision", "parameter_type", "initial_value", "tol"],
+         fields={"bounds": "List[Real]", "precision": "Real", "tol": "Real", "initial_value": "Real", "name": "Str"})
+classdef("Options", rec=True,
+         fields={"max_population_size": "Int", "max_population_number": "Int", "max_processes": "Int"})
+classdef("Algorithm", fields={"parameters": "List[Ref[Parameter]]", "options": "Ref[Options]", "problem": "Ref[Problem]",
+                              "evaluator": "Ref[Evaluator]"})
+classdef("GeneticAlgorithm", bases=["Algorithm"], fields={})
+classdef("SwarmAlgorithm", bases=["GeneticAlgorithm"],
+         fields={"dominance": "Ref[ParetoDominance]", "leaders": "Ref[Archive]", "archive": "Ref[Archive]",
+                 "r1_min": "Real", "r1_max": "Real", "r2_min": "Real", "r2_max": "Real",
+                 "c1_min": "Real", "c1_max": "Real", "c2_min": "Real", "c2_max": "Real",
+                 "min_weight": "Real", "max_weight": "Real"})
+classdef("OMOPSO", bases=["SwarmAlgorithm"], fields={})
+classdef("SMPSO", bases=["SwarmAlgorithm"], fields={})
+classdef("PSOGA", bases=["SwarmAlgorithm"], fields={})
+classdef("Problem", fields={"parameters": "List[Ref[Parameter]]", "individuals": "List[Ref[Individual]]",
+                            "failed": "List[Ref[Individual]]", "signs": "List[Int]"})
+classdef("Evaluator", fields={})
